@@ -61,6 +61,14 @@ def frame_pool(rng, extra_ubx=()):
             out.append((f, "NMEA"))
     for f in p["rtcm"]:
         out.append((f, "RTCM"))
+    out.extend(special_frames(rng))
+    return out
+
+
+def special_frames(rng):
+    """the synthesised frames of the pool: every boundary case a reader property cares about (each of them is also placed
+    DETERMINISTICALLY into a stream of every reader check, see readerprops.gen_tour)"""
+    out = []
     # synthesised
     for body in ("GNGGA,092204.999,4250.5589,S,14718.5084,E,1,04,24.4,19.7,M,,,,0000",
                  "GPGLL,5327.04319,N,00214.41396,W,223232.00,A,A", "GNRMC,,V,,,,,,,,,,N", "GPZZZ,1,2,3", "PUBX,00"):
@@ -105,11 +113,25 @@ def frame_pool(rng, extra_ubx=()):
     return out
 
 
+def spoil(f):
+    """the same frame with its last checksum / CRC byte damaged"""
+    return f[:-1] + bytes((f[-1] ^ 0x5A,))
+
+
 def nested_frames(rng):
     """frames whose payload contains complete valid frames of the three protocols (adversarial for any re-scanning of partial data)"""
     inner = [frame(0x05, 0x01, b"\x06\x01"), frame(0x05, 0x00, b"\x06\x8a"), nmea_line("GNGLL,5327.04319,N,00214.41396,W,223232.00,A,A"),
              rtcm_frame(bytes(5)), frame(0x06, 0x00, b"")]
     out = []
+    # rejected frames within rejected frames: an outer frame with a damaged checksum whose payload holds good frames AND an inner frame
+    # with a damaged checksum that itself holds a good frame (adversarial for resynchronisation / push-back of rejected spans)
+    a, b, c = inner[0], inner[1], frame(0x06, 0x01, b"\x01\x07")
+    for mid in (spoil(frame(0x77, 0x03, b"\x00" + b)), spoil(rtcm_frame(b"\x00" + b + b"\x00")), frame(0x77, 0x03, b"\x00" + b)):
+        body = a + mid + c
+        out.append((spoil(frame(0x77, 0x04, body)), "UBX"))
+        out.append((spoil(frame(0x77, 0x04, mid + c + inner[2])), "UBX"))
+        out.append((spoil(rtcm_frame(body)), "RTCM"))
+        out.append((frame(0x77, 0x04, body), "UBX"))
     for x in inner:
         out.append((frame(0x04, 0x04, x), "UBX"))
         out.append((frame(0x77, 0x01, b"\x00" + x + b"\x00\x00"), "UBX"))
@@ -212,9 +234,10 @@ def obs_runs(case):
         data = S if cut < 0 else S[:cut]
         r = rd.run_reader(data, filt=pl.get("filter", 7), quit=pl.get("quit", 1), parsing=bool(pl.get("parsing", 1)),
                           handler=bool(pl.get("handler", 1)), msgmode=mm, validate=va, pbf=pbf,
-                          keep_reads=bool(pl.get("reads", 0)), labelmsm=lm, bursts=case.get("bursts", ()), kind=case.get("streamkind", "min"))
+                          keep_reads=bool(pl.get("reads", 0)), labelmsm=lm, bursts=case.get("bursts", ()), kind=case.get("streamkind", "min"),
+                          poll=case["prop"] == "C07")  # C07 speaks of successive read() calls: a polling caller asks again after (None, None)
         r["cut"] = cut
-        r["reads"] = 1 if pl.get("reads", 0) else 0
+        r["reads"] = 1 if pl.get("reads", 0) and case.get("streamkind") != "sock" else 0
         raw_runs.append(r)
     same = -1
     if case["prop"] == "C12" and len(raw_runs) >= 3:
